@@ -108,6 +108,10 @@ fn gen_class(rng: &mut Lcg, cls: &str, n: usize) -> Vec<f64> {
         "dense-scaled-huge" => for v in a.iter_mut() { *v = randn(rng) * 2f64.powi(70); },
         // non-symmetric, positive dominant diagonal, every entry far below machine epsilon in absolute terms
         "tiny-nonsymmetric-posdiag" => { for i in 0..n { for j in 0..n { a[i * n + j] = if i == j { (n as f64 + 2.0 + randn(rng).abs()) * 1e-19 } else { randn(rng) * 1e-19 }; } } }
+        // the pivot search must take the LARGEST candidate: a tiny diagonal, one entry of order one and further small
+        // candidates that still exceed the diagonal (choosing any of those costs a growth factor of 1e6)
+        "pivot-trap" => { for v in a.iter_mut() { *v = randn(rng); }
+                          if n >= 3 { let big = 1 + rng.below(n as u64 - 2) as usize; for i in 0..n { a[i * n] = if i == 0 { 1e-9 } else if i == big { 1.0 + randn(rng).abs() } else { 1e-6 * randn(rng) }; } } }
         "spd" => { let g: Vec<f64> = (0..n * n).map(|_| randn(rng)).collect(); let gtg = matmul(&g, &g, n, n, true, false);
                    for i in 0..n { for j in 0..n { a[i * n + j] = gtg[i * n + j] + if i == j { 1.0 } else { 0.0 }; } } }
         "sym-indef-posdiag" => { for i in 0..n { for j in i..n { let v = randn(rng) * 3.0; a[i * n + j] = v; a[j * n + i] = v; } a[i * n + i] = 0.5 + rng.below(100) as f64 / 100.0; } }
@@ -167,7 +171,7 @@ pub fn record(seed: u64, nev: usize, out: &str) {
             }
         }
     }
-    let classes = ["dense", "spd", "sym-indef-posdiag", "diagdom", "perm-scaled-triangular", "graded", "dense-scaled-tiny", "dense-scaled-huge", "tiny-nonsymmetric-posdiag"];
+    let classes = ["dense", "spd", "sym-indef-posdiag", "diagdom", "perm-scaled-triangular", "graded", "dense-scaled-tiny", "dense-scaled-huge", "tiny-nonsymmetric-posdiag", "pivot-trap"];
     for e in 0..nev {
         let cls = classes[e % classes.len()];
         let n = rng.range(1, 32) as usize;
